@@ -334,6 +334,7 @@ def run(P: Program, R: Report, tier: str) -> None:
     id_truthiness(P, R, "R01.10", modules=("actions", "annotators", "user_actions"))
     attr_truthiness(P, R, "R01.11")
     paint_flow_pixels(P, R, A, "R01.12")
+    apply_keeps_inverse_inputs(P, R, "R01.13")
 
 
 ATTR_READS = ("get_edge_attr", "get_node_attr", "_get_edge_attr", "_get_node_attr", "get_nodes_attr", "get_edges_attr")
@@ -418,3 +419,30 @@ def paint_flow_pixels(P: Program, R: Report, A: ActionAnalysis, rule: str) -> No
                 f"{name} is constructed without pixels: it reads the already-painted array, captures the wrong mask, and undo does not restore the segmentation",
                 via="interp-args")
     R.floor(rule, "pixel-taking primitives constructed in the paint-driven action", len(seen), 3)
+
+
+def apply_keeps_inverse_inputs(P: Program, R: Report, rule: str) -> None:
+    """`_apply` performs the edit; it does not rewrite the fields the inverse is built from.  A primitive whose _apply
+    narrows or recomputes e.g. `self.pixels` from the CURRENT array records something else than what it was told to
+    do - and in the paint-driven flow the array has already been changed by the caller, so the recomputed value is
+    empty and the inverse restores nothing."""
+    n = 0
+    for c in P.primitives():
+        ap, inv = c.methods.get("_apply"), P.lookup_method(c.qname, "inverse")
+        if ap is None or inv is None:
+            continue
+        read_by_inverse = {x.attr for x in ast.walk(inv.node) if isinstance(x, ast.Attribute) and isinstance(x.value, ast.Name) and x.value.id == "self"}
+        n += 1
+        bad = None
+        for s_ in ast.walk(ap.node):
+            tg = s_.targets if isinstance(s_, ast.Assign) else ([s_.target] if isinstance(s_, (ast.AugAssign, ast.AnnAssign)) else [])
+            for t in tg:
+                base = t
+                while isinstance(base, ast.Subscript):
+                    base = base.value
+                if isinstance(base, ast.Attribute) and isinstance(base.value, ast.Name) and base.value.id == "self" and base.attr in read_by_inverse and base.attr != "tracks":
+                    bad = (s_, base.attr)
+        R.check(bad is None, rule, ap, bad[0] if bad else ap.node, f"{c.name}._apply leaves the fields its inverse is built from untouched",
+                f"`{norm(bad[0])[:80]}` rewrites self.{bad[1]} while applying: the inverse is then built from something else than the edit that was requested "
+                "(after a paint stroke the array is already changed, so a value recomputed from it is empty and undo restores nothing)" if bad else "", via="def-use")
+    R.floor(rule, "primitives with _apply and inverse", n, 5)
